@@ -13,6 +13,7 @@
 #include <optional>
 
 #include "common.hpp"
+#include "locksweep.hpp"
 #include "schemas.hpp"
 #include "snapjson.hpp"
 
@@ -31,7 +32,7 @@ struct world
     std::optional<dj::database> db;
     std::vector<std::optional<dj::track>> th{std::nullopt};
     sqlite3* conn = nullptr;
-    bool rep = false, sweep = false, stale_get = false, dead = false, want_stmts = false, blobs = false;
+    bool rep = false, sweep = false, stale_get = false, dead = false, want_stmts = false, blobs = false, locks = false;
 };
 std::string g_tmp_root;
 int g_dir_counter = 0;
@@ -286,6 +287,7 @@ void start_world(world& w, const json& r)
     w.mode = r.value("mode", "mem");
     w.rep = r.value("rep", false);
     w.sweep = r.value("sweep", false);
+    w.locks = r.value("locks", false) && r.value("mode", "mem") == "disk";
     w.stale_get = r.value("stale_get", false);
     w.want_stmts = r.value("stmts", false);
     w.blobs = r.value("blobs", false) && w.v2;
@@ -555,6 +557,53 @@ void exec_op(world& w, const json& op)
     {
         vh::emit({{"e", "skip"}, {"why", "no-handle"}, {"op", name}});
         w.dead = true;
+        return;
+    }
+    // Lock sweep (library on disk; DESIGN.md 13.14): every call is first attempted while another connection takes an
+    // EXCLUSIVE / RESERVED / SHARED lock on every database file right before the call's k-th statement, k = 1, 2, ...
+    if (w.locks && !probe)
+    {
+        bool done = false;
+        for (int k = 1; k <= 96 && !done && !w.dead; ++k)
+            for (int want = 4; want >= 1 && !done && !w.dead;)
+            {
+                json r = rec;
+                size_t nth = w.th.size();
+                std::string d0 = vh::raw_reader{w.conn}.digest();
+                newid = 0;
+                auto la = vh::lock_attempt(w.conn, k, want, name.c_str(), f);
+                auto& oc = la.oc;
+                want = la.next_want;
+                r["out"] = oc.ok ? "ok" : "throw";
+                r["ex"] = oc.ex;
+                r["std"] = oc.std_exc;
+                r["new"] = newid;
+                r["ns"] = shim::n_prepared();
+                if (name == "fixpoint" && oc.ok)
+                {
+                    r["s1"] = s1;
+                    r["s2"] = s2;
+                }
+                r["lk"] = la.lk;
+                if (la.any_busy)
+                {
+                    r["fault"] = {{"k", la.fail_k}, {"fired", true}, {"lock", la.lk["lvl"]}};
+                    r["dsame"] = vh::raw_reader{w.conn}.digest() == d0;
+                    if (oc.ok)
+                        w.th.resize(nth);
+                }
+                else
+                    done = true;
+                observation_phase(w, r);
+                if (!la.any_busy && op.contains("exp") && op["exp"].get<std::string>() != r["out"].get<std::string>())
+                    r["diverged"] = true;
+                vh::emit(r);
+            }
+        if (!done && !w.dead)
+        {
+            vh::emit({{"e", "skip"}, {"why", "lock sweep did not reach the end of the call"}});
+            w.dead = true;
+        }
         return;
     }
     int fault = op.value("fault", 0);
